@@ -29,8 +29,10 @@ ASSUMPTIONS = [
 def run_case(case):
     specs, driver, cf, cuts = case["frames"], case["driver"], case.get("cf", False), case.get("cuts", [])
     obs = Obs()
-    events, ws, fs, frames, ends, wire = rx.run_stream(specs, cuts, driver, cf)
-    want, wwr = rx.expected_events(frames, ends, len(wire), driver, cf)
+    fire = bool(case.get("fire")) and driver in ("data_frame", "data")
+    skip = bool(case.get("skip")) and driver != "recv"
+    events, ws, fs, frames, ends, wire = rx.run_stream(specs, cuts, driver, cf, fire, skip)
+    want, wwr = rx.expected_events(frames, ends, len(wire), driver, cf, fire, skip)
     rx.compare(obs, events, want, f"decode|{driver}")
     if driver != "frame":
         rx.compare_writes(obs, fs, wwr, f"decode|{driver}")
@@ -41,7 +43,7 @@ def run_case(case):
     obs.cls = (driver, f"cf:{int(cf)}", f"frames:{min(len(frames), 6)}", f"cuts:{min(len(cuts), 3)}") + tuple(
         sorted({f"op:{s[0]}" for s in sh} | {f"lenclass:{s[3]}" for s in sh} | {f"masked:{s[2]}" for s in sh})
     )
-    obs.nt = (driver, cf, sh, min(len(cuts), 8)) if nt else None
+    obs.nt = (driver, cf, sh, min(len(cuts), 8), fire, skip) if nt else None
     return obs
 
 
@@ -81,7 +83,7 @@ def cases(draw):
     wire, frames, ends = rx.wire_of(specs)
     inside, seams = rx.header_offsets(frames)
     cuts = draw(rx.cutset(len(wire), inside + seams)) if draw(st.integers(0, 2)) == 0 else []
-    return {"frames": specs, "driver": driver, "cf": cf, "cuts": cuts}
+    return {"frames": specs, "driver": driver, "cf": cf, "cuts": cuts, "fire": draw(st.integers(0, 3)) == 0, "skip": draw(st.integers(0, 3)) == 0}
 
 
 def jobs(tier, seed):
